@@ -130,7 +130,69 @@ def build_driver(ctx):
     shutil.copy(os.path.join(ctx.root, 'ocaml', 'driver.ml'), os.path.join(ex, 'driver.ml'))
     rc, out2 = run(['ocamlfind', 'ocamlopt', '-O3', '-package', 'zarith', '-linkpkg', '-w', '-a',
                     'model.mli', 'model.ml', 'driver.ml', '-o', ctx.driver_bin], cwd=ex, timeout=600)
-    return rc == 0, out + out2, time.time() - t
+    if rc != 0:
+        return False, out + out2, time.time() - t
+    # profiling build of the same extracted model (bytecode, ocamlcp -P a) + dump merger: used only to
+    # MEASURE which branches of the model the correspondence streams executed (reported in the evidence)
+    prof = os.path.join(ex, 'prof')
+    os.makedirs(prof, exist_ok=True)
+    for f in ('model.ml', 'model.mli', 'driver.ml'):
+        shutil.copy(os.path.join(ex, f), os.path.join(prof, f))
+    shutil.copy(os.path.join(ctx.root, 'ocaml', 'covmerge.ml'), os.path.join(prof, 'covmerge.ml'))
+    rc3, out3 = run(['ocamlfind', 'ocamlcp', '-P', 'a', '-package', 'zarith', '-linkpkg', '-w', '-a',
+                     'model.mli', 'model.ml', 'driver.ml', '-o', 'driver_prof'], cwd=prof, timeout=600)
+    rc4, out4 = run(['ocamlfind', 'ocamlopt', '-w', '-a', 'covmerge.ml', '-o', 'covmerge'], cwd=prof, timeout=600)
+    return rc == 0, out + out2 + (out3 if rc3 else '') + (out4 if rc4 else ''), time.time() - t
+
+
+def model_coverage(ctx, opsfiles):
+    """run the profiling build of the extracted model over the operation files and report which
+    branch counters of model.ml were never hit (a measurement of the streams, not a proof)"""
+    prof = os.path.join(ctx.build, 'extract', 'prof')
+    exe = os.path.join(prof, 'driver_prof')
+    if not os.path.exists(exe) or not os.path.exists(os.path.join(prof, 'covmerge')):
+        return {'note': 'profiling build not available'}
+    work = os.path.join(ctx.build, 'cov-%d' % os.getpid())
+    shutil.rmtree(work, ignore_errors=True)
+    os.makedirs(work)
+    procs = []
+    for i, f in enumerate(opsfiles):
+        d = os.path.join(work, str(i))
+        os.makedirs(d)
+        procs.append(subprocess.Popen([exe, 'run', f], cwd=d, stdout=subprocess.DEVNULL, stderr=subprocess.DEVNULL))
+        if len(procs) % 16 == 0:
+            for p in procs[-16:]:
+                p.wait()
+    for p in procs:
+        p.wait()
+    dumps = [os.path.join(work, str(i), 'ocamlprof.dump') for i in range(len(opsfiles))]
+    dumps = [d for d in dumps if os.path.exists(d)]
+    if not dumps:
+        shutil.rmtree(work, ignore_errors=True)
+        return {'note': 'no profile produced'}
+    merged = os.path.join(work, 'merged.dump')
+    run([os.path.join(prof, 'covmerge'), merged] + dumps, timeout=600)
+    rc, out = run(['ocamlprof', '-f', merged, 'model.ml'], cwd=prof, timeout=600)
+    shutil.rmtree(work, ignore_errors=True)
+    if rc != 0:
+        return {'note': 'ocamlprof failed'}
+    total = zero = 0
+    cur = '?'
+    unhit = {}
+    for ln in out.splitlines():
+        m = re.match(r'(?:let rec|let|and)\s+([a-z_][A-Za-z0-9_\']*)', ln)
+        if m:
+            cur = m.group(1)
+        cs = re.findall(r'\(\* (\d+) \*\)', ln)
+        total += len(cs)
+        z = sum(1 for c in cs if c == '0')
+        zero += z
+        if z:
+            unhit[cur] = unhit.get(cur, 0) + z
+    return {'branch_counters': total, 'never_hit': zero, 'hit_percent': round(100.0 * (total - zero) / max(total, 1), 1),
+            'functions_with_unhit_branches': dict(sorted(unhit.items(), key=lambda kv: -kv[1])[:60]),
+            'files': len(opsfiles),
+            'how': 'extracted model compiled with ocamlcp -P a (bytecode, branch counters), run over the same operation files as the correspondence streams of this check'}
 
 
 def build_all(ctx, clean_coq=False):
@@ -629,6 +691,14 @@ def check_property(ctx, pid, tier, seed, replay=None):
                 violations.append((rp, True, 'model/implementation disagreement at op %s: %s' % (dv.get('op_index'), dv.get('op'))))
         cov['streams'][sname] = st
 
+    if os.environ.get('VERIF_NO_COVERAGE') != '1':
+        t1 = time.time()
+        files = []
+        for sname, trs in streams:
+            sel = trs if (tier == 'thorough' or not sname.startswith('profile:')) else trs[:4]
+            files += [opsf for (opsf, robs, mobs) in sel]
+        cov['model_coverage'] = model_coverage(ctx, files)
+        cov['model_coverage']['wall_s'] = round(time.time() - t1, 1)
     return finish(ctx, pid, tier, seed, t0, spec, au, cov, violations, known_hits)
 
 
@@ -661,6 +731,7 @@ def finish(ctx, pid, tier, seed, t0, spec, au, cov, violations, known_hits):
             'streams': cov['streams'],
             'builds_s': {k: v for k, v in cov.items() if k.startswith('build_')},
             'coqchk': cov.get('coqchk', 'not run in this tier (thorough only)'),
+            'model_branch_coverage': cov.get('model_coverage', {}),
         },
         'assumptions': spec.get('assumes', []),
         'wall_s': round(wall, 1),
